@@ -14,6 +14,18 @@ TEXT = {
  "C19": ("Injectivity of complete sequences and make/break pairing are evaluated by TLC on the automata extracted from the real decoders, with no reference table.", "G: predicates over the extracted reachable graph in TLC"),
 }
 
+LAYOUT_NOTE = " Judged by TLC on the complete function table extracted from the real layouts (30 layout objects x 124 keys x 512 modifier sets x 2 modes = 3 809 280 cells), one TLC state per (object, key, mode) row."
+TEXT.update({
+ "C03": ("Reference levels from the national standards (LayoutRef.tla, sets of acceptable code points) against every cell that selects the base, shift or AltGr level." + LAYOUT_NOTE, "T: exhaustive function table judged by TLC"),
+ "C09": ("Ctrl+letter rule relative to the layout's own unshifted output; Map vs Ignore equality elsewhere; Ctrl inert in Ignore mode." + LAYOUT_NOTE, "T: exhaustive function table judged by TLC"),
+ "C10": ("CapsLock = Shift inversion on case pairs (all left/right Shift representatives), no effect elsewhere." + LAYOUT_NOTE, "T: exhaustive function table judged by TLC"),
+ "C11": ("Out(m) = Out(Rep(Abs(m))) for all 512 modifier sets of every row." + LAYOUT_NOTE, "T: exhaustive function table judged by TLC"),
+ "C12": ("For each layout and mode, every character 32..126 is produced by some key at the unshifted, shifted or AltGr level (existential search by TLC over the extracted table).", "T: exhaustive function table judged by TLC"),
+ "C15": ("Numpad/NumLock rule, operators, NumpadEnter = Return cell by cell, decimal separator, six editing keys." + LAYOUT_NOTE, "T: exhaustive function table judged by TLC"),
+ "C16": ("The 52 character-less keys are raw in every cell of all 30 layout objects; any raw output names the pressed key or its navigation alias." + LAYOUT_NOTE, "T: exhaustive function table judged by TLC"),
+ "C17": ("Every AnyLayout and &AnyLayout row equals the wrapped layout's row cell by cell; the ten plain tables are pairwise distinct." + LAYOUT_NOTE, "T: exhaustive function table judged by TLC"),
+})
+
 def main():
     checks = []
     for pid in sorted(pkverif.PROPS):
